@@ -1,11 +1,36 @@
 (* Main.v — request dispatcher of the extracted model binary: one s-expression request per line,
    one s-expression answer per line. Definitions only. *)
-From FV Require Import Base AddrRange RouteMap Graph Netlist.
+From FV Require Import Base AddrRange RouteMap Graph Netlist Hw Check.
+
+Definition sx_expected (x : sx) : res (string * (Z * Z)) :=
+  match x with
+  | L [A nm; s; e] => do s <- sx_Z s; do e <- sx_Z e; Ok (nm, (s, e))
+  | _ => Err "(name start end) expected"
+  end.
+
+(* (chk <netlist> (C01 (exp...)) (C07 (names...)) C02 C03 C05 C09 C13 C14 ...) -> ((Cxx fails)...) *)
+Definition run_check (n : netlist) (c : sx) : res sx :=
+  match c with
+  | A "C02" => Ok (L [A "C02"; fails_to_sx (chk_C02 n)])
+  | A "C03" => Ok (L [A "C03"; fails_to_sx (chk_C03 n)])
+  | A "C05" => Ok (L [A "C05"; fails_to_sx (chk_C05 n)])
+  | A "C09" => Ok (L [A "C09"; fails_to_sx (chk_C09 n)])
+  | A "C13" => Ok (L [A "C13"; fails_to_sx (chk_C13 n)])
+  | A "C14" => Ok (L [A "C14"; fails_to_sx (chk_C14 n)])
+  | L [A "C01"; exp] => do exp <- sx_listof sx_expected exp; Ok (L [A "C01"; fails_to_sx (chk_C01 n exp)])
+  | L [A "C07"; names] => do names <- sx_listof sx_str names; Ok (L [A "C07"; fails_to_sx (chk_C07 n names)])
+  | _ => Err "unknown check"
+  end.
 
 Definition dispatch (cmd : string) (args : list sx) : res sx :=
   if str_eqb cmd "c17" then handle_c17 args
   else if str_eqb cmd "c16" then handle_c16 args
   else if str_eqb cmd "c18" then handle_c18 args
+  else if str_eqb cmd "chk" then
+    match args with
+    | nl :: checks => do n <- sx_netlist nl; do rs <- mapM (run_check n) checks; Ok (L rs)
+    | _ => Err "chk: arity"
+    end
   else if str_eqb cmd "nl-echo" then
     match args with [x] => do n <- sx_netlist x; Ok (x_netlist n) | _ => Err "nl-echo: arity" end
   else Err ("unknown command " +++ cmd).
